@@ -387,7 +387,10 @@ impl Process {
                 ProcessState::Running => self.resumption_awaiters.wake_all(),
                 ProcessState::Halted(result) => {
                     if !result.is_stopped() {
-                        self.close_fds()
+                        self.close_fds();
+                        // Let a task waiting for a signal notice that the
+                        // process has been terminated.
+                        self.signal_wakers.wake_all();
                     }
                 }
             }
@@ -552,6 +555,14 @@ impl Process {
     /// process.
     #[must_use = "send SIGCHLD if process state has changed"]
     pub fn raise_signal(&mut self, signal: signal::Number) -> SignalResult {
+        // A terminated process (a zombie) is not affected by signals: it can be
+        // neither resumed nor terminated again.
+        if let ProcessState::Halted(result) = self.state
+            && !result.is_stopped()
+        {
+            return SignalResult::default();
+        }
+
         let process_state_changed =
             signal == signal::SIGCONT && self.set_state(ProcessState::Running);
 
